@@ -197,6 +197,7 @@ static void case_mpz(ByteSource& in, CaseInfo& ci) {
   ci.label(names[f]);
   size_t un, vn; gen_shape(in, un, vn); if (in.chance(30)) vn = 0; if (in.chance(20)) un = 0;
   if (f >= 3 && un + vn > 3000) { un = un % 1500; vn = vn % 1500; }
+  if (un + vn > EXACT_LIMIT) { un = un % (EXACT_LIMIT / 2); vn = vn % (EXACT_LIMIT / 2); }   // the mpz layer is compared with the exact refint product only
   Limbs ul, vl; gen_operands(in, ul, vl, std::max<size_t>(un, 1), std::max<size_t>(vn, 1)); ul.resize(un); vl.resize(vn);
   Int U = Int::from_limbs(ul.data(), un, in.flag()), V = Int::from_limbs(vl.data(), vn, in.flag());
   if (in.flag()) std::swap(U, V);
